@@ -47,6 +47,20 @@ def products():
         return "gradient of J u w.r.t. the object tensor differs"
 
 
+def complex_products():
+    """holomorphic function of complex arguments: mv is J u (no conjugation), rmv is J^H u"""
+    cdt = torch.complex128
+    Wm = torch.tensor([[1.0 + 2.0j, -0.5j, 0.3], [0.7, 2.0 - 1.0j, 1.0j], [0.2j, 0.4, -1.0 + 0.5j]], dtype=cdt)
+    y = torch.tensor([0.3 + 0.1j, -0.7 + 0.4j, 1.1 - 0.2j], dtype=cdt, requires_grad=True)
+    f = lambda yy: Wm @ (yy * yy) + 2.0j * yy
+    J = jac(f, (y,), idxs=0)
+    Jd = Wm * (2 * y.detach()).unsqueeze(0) + 2.0j * torch.eye(3, dtype=cdt)      # dense holomorphic Jacobian
+    u = torch.tensor([1.0 - 1.0j, 2.0j, 0.5], dtype=cdt)
+    for name, got, want in (("mv", J.mv(u), Jd @ u), ("rmv", J.rmv(u), Jd.conj().T @ u), ("fullmatrix", J.fullmatrix(), Jd)):
+        if not torch.allclose(got, want, rtol=1e-10, atol=1e-12):
+            return "complex %s differs from the dense Jacobian (%.3e)" % (name, float((got - want).abs().max()))
+
+
 def _dense_graph(m, y, s):
     rows = []
     out = m.f(y, s)
@@ -128,7 +142,7 @@ def index_validation():
             pass
 
 
-TABLE = {"products": products, "substitution": substitution, "substitution_after_non_tensor": substitution_after_non_tensor, "hessian": hessian, "index_validation": index_validation}
+TABLE = {"complex_products": complex_products, "products": products, "substitution": substitution, "substitution_after_non_tensor": substitution_after_non_tensor, "hessian": hessian, "index_validation": index_validation}
 
 if __name__ == "__main__":
     run_oracles(TABLE, sys.argv)
